@@ -79,6 +79,15 @@ def forward(ns, case, xs, dtype=np.float64, req=None):
     ts = to_tensors(ns, specs, xs, dtype, req, case.get("storage", "plain"))
     a = copy.deepcopy(case["a"])
     out = op.forms[case["form"]](ns, ts, a)
+    if case.get("twice"):
+        # same op, same shapes / dtypes / arguments, other values: caches or buffers shared between calls must not leak into `out`
+        xs2 = [x if sp["int"] else (np.asarray(x, dtype=np.float64) * -0.7 + 0.9 if sp["vclass"] not in ("prob", "positive", "runvar") else np.asarray(x)[..., ::-1].copy() if np.ndim(x) else x)
+               for sp, x in zip(specs, xs)]
+        ts2 = to_tensors(ns, specs, xs2, dtype, [False] * len(xs), "plain")
+        try:
+            op.forms[case["form"]](ns, ts2, copy.deepcopy(case["a"]))
+        except Exception:
+            pass
     return ts, out
 
 
